@@ -859,9 +859,13 @@ func handleMessage(peer *Peer, m protocol.Message) error {
 			// head drop
 			r := peer.requested[0]
 			err := reject(peer, r.Index, r.Begin, r.Length)
-			if err == nil {
-				peer.requested = peer.requested[1:]
+			if err != nil {
+				// the peer is overflowing our queue and
+				// not reading what we send, don't let
+				// the queue grow without bound.
+				return err
 			}
+			peer.requested = peer.requested[1:]
 		}
 		peer.requested = append(peer.requested,
 			Requested{m.Index, m.Begin, m.Length})
